@@ -100,6 +100,10 @@ func genVal(r *rng.R, kind string, wild bool) string {
 		if r.Chance(1, 8) {
 			return tok + ":0"
 		}
+		if !w && r.Chance(1, 10) { // round and extreme instants
+			return tok + ":" + rng.Pick(r, "2000-1-1-0-0-0", "1999-12-31-23-59-59", "2000-1-1-0-0-1", "1-1-1-0-0-1", "1-1-2-0-0-0", "9999-12-31-23-59-59",
+				"1970-1-1-0-0-0", "1969-12-31-23-59-59", "2000-2-29-12-0-0", "2100-1-1-0-0-0", "1900-1-1-0-0-0", "2038-1-19-3-14-8")
+		}
 		lo, hi := 1, 9999
 		if w {
 			lo, hi = 0, 0
@@ -175,14 +179,46 @@ func doMarshal(r *rng.R, t reflect.Type, toks []string) (string, []byte) {
 	return out, bytes
 }
 
+// doUnmarshal decodes b through one of the three entry points in turn: Unmarshal, UnmarshalArrayElement, and
+// UnmarshalArray over [the previous datagram that decoded as this type, b] (taking the last element). The answer
+// must not depend on the entry point nor on what was decoded before.
+var (
+	unmarshalTurn int
+	lastDecoded   = map[reflect.Type][]byte{}
+)
+
 func doUnmarshal(t reflect.Type, b []byte) string {
-	return guard(func() string {
+	unmarshalTurn++
+	turn := unmarshalTurn % 3
+	out := guard(func() string {
+		switch prev := lastDecoded[t]; {
+		case turn == 1:
+			arr := reflect.New(reflect.SliceOf(t))
+			v, err := codec.UnmarshalArrayElement(b, arr.Interface())
+			if err != nil {
+				return "err"
+			}
+			return showStruct(reflect.ValueOf(v))
+		case turn == 2 && prev != nil:
+			arr := reflect.New(reflect.SliceOf(t))
+			if err := codec.UnmarshalArray([][]byte{prev, b}, arr.Interface()); err != nil {
+				return "err"
+			}
+			if arr.Elem().Len() != 2 {
+				return fmt.Sprintf("array-of-%d", arr.Elem().Len())
+			}
+			return showStruct(arr.Elem().Index(1))
+		}
 		p := reflect.New(t)
 		if err := codec.Unmarshal(b, p.Interface()); err != nil {
 			return "err"
 		}
 		return showStruct(p.Elem())
 	})
+	if out != "err" && out != "panic" {
+		lastDecoded[t] = append([]byte{}, b...)
+	}
+	return out
 }
 
 func valueKinds(fs []fieldDesc) []string {
